@@ -15,3 +15,4 @@ import RexModel.Props.C04
 #print axioms Rex.C04.scheduled_ts_mono
 #print axioms Rex.C04.arrival_law
 #print axioms Rex.C04.arrival_ge
+#print axioms Rex.C04.C04_recorded_steps_obey_start_law
